@@ -5,7 +5,7 @@
                 (Proofs/FmtPython.v: val_ok, star_ok)
    The domain of the property ("no % conversion carries a key, flag, width, precision or length") is plain_percents. *)
 From Coq Require Import List NArith ZArith Bool.
-From I18n Require Import Lib.Outcome Model.FmtPython Model.FmtInstances Spec.CPyPercent Proofs.FmtPythonDir Proofs.FmtPython.
+From I18n Require Import Lib.Outcome Model.FmtPython Model.FmtInstances Spec.CPyPercent Proofs.FmtPythonDir Proofs.FmtPython Proofs.FmtPythonGen.
 Import ListNotations.
 Local Open Scope N_scope.
 
@@ -15,7 +15,7 @@ Proof. reflexivity. Qed.
 Print Assumptions C12_info_sync.
 
 Theorem C12_extracted_is_std : forall s, fmtpy_parse_gen s = fmtpy_parse std_info s.
-Proof. intros s. unfold fmtpy_parse_gen. rewrite C12_info_sync. reflexivity. Qed.
+Proof. exact extracted_is_std. Qed.
 Print Assumptions C12_extracted_is_std.
 
 (* accepted => CPython formats the string with any arguments of the reported shape and types *)
@@ -33,10 +33,7 @@ Print Assumptions C12_reject_if_cpython_rejects.
 
 (* ... and such a string is formatted by no argument at all (the two readings of "rejects" agree) *)
 Theorem C12_syntax_error_never_formats : forall s a, cpy_syntax_error s = true -> ~ formats_ok s a.
-Proof.
-  intros s a Hs Hok. unfold formats_ok, cpy_format in Hok. apply run_success_no_error in Hok.
-  unfold cpy_syntax_error in Hs. congruence.
-Qed.
+Proof. exact syntax_error_never_formats. Qed.
 Print Assumptions C12_syntax_error_never_formats.
 
 (* a string CPython can format is rejected only for a documented reason: mixing named and unnamed
@@ -57,9 +54,7 @@ Print Assumptions C12_own_errors.
 Theorem C12_domain_needed :
   (exists sg, fmtpy_parse std_info [37; 53; 37] = Ok sg /\ args_match (seq_arguments sg) (map_arguments sg) (VTuple [])) /\
   cpy_syntax_error [37; 53; 37] = true /\ plain_percents [37; 53; 37] = false.
-Proof.
-  split; [|split; reflexivity]. eexists. split; [vm_compute; reflexivity|]. cbn. exists []. split; [reflexivity|constructor].
-Qed.
+Proof. exact domain_needed. Qed.
 Print Assumptions C12_domain_needed.
 
 (* non-vacuity *)
